@@ -167,6 +167,72 @@ def lint_unchecked(src, problems):
     return guarded, relied
 
 
+def lint_neighbor_index(src):
+    """every call neighbor_unchecked(D, E): E must be bounded by the record's own count — either the variable of an
+    enclosing `for E in 0..neighbor_count`, or inside an `if` whose condition has `E < neighbor_count` — and that
+    `neighbor_count` must be read with count_unchecked in the same function or be a parameter of it (then every caller
+    has to pass its own `neighbor_count`).  Returns (sites, unguarded)."""
+    sites, unguarded = [], []
+    for m in re.finditer(r"\bneighbor_unchecked\(", src):
+        if re.search(r"fn\s+$", src[max(0, m.start() - 12):m.start()]):
+            continue
+        close = match_close(src, m.end() - 1, "(", ")")
+        args = [a.strip() for a in src[m.end():close].split(",")]
+        if len(args) != 2:
+            unguarded.append("neighbor_unchecked(%s): arity" % ",".join(args)); continue
+        e = re.sub(r"\s+", " ", args[1])
+        fstart = max(src.rfind("\n    fn ", 0, m.start()), src.rfind("\n    unsafe fn ", 0, m.start()),
+                     src.rfind("\n    pub fn ", 0, m.start()), src.rfind("\n    pub(crate) fn ", 0, m.start()))
+        before = src[fstart:m.start()]
+        ee = re.escape(e).replace("\\ ", r"\s*")
+        guard = None
+        cands = []
+        if re.fullmatch(r"\w+", e):
+            cands += [(g.end(), "for %s in 0..neighbor_count" % e) for g in re.finditer(r"for\s+%s\s+in\s+0\s*\.\.\s*neighbor_count\s*\{" % ee, before)]
+        cands += [(g.end(), "if %s < neighbor_count" % e) for g in re.finditer(r"if\b[^{;]*?%s\s*<\s*neighbor_count\b[^{;]*\{" % ee, before)]
+        for end, text in sorted(cands, reverse=True):
+            tail = before[end:]
+            if tail.count("{") - tail.count("}") >= 0:          # the guarded block is still open at the call
+                guard = text; break
+        prov = "let" if re.search(r"let\s+neighbor_count\s*=[^;]*count_unchecked\(", before, re.S) else \
+               "param" if re.search(r"fn\s+\w+\s*\([^)]*\bneighbor_count\s*:\s*usize", before, re.S) else None
+        if guard and prov == "param":
+            fname = re.search(r"fn\s+(\w+)\s*\(", before).group(1)
+            for c in re.finditer(r"\b%s\(" % fname, src):
+                if re.search(r"fn\s+$", src[max(0, c.start() - 12):c.start()]):
+                    continue
+                cargs = [a.strip() for a in src[c.end():match_close(src, c.end() - 1, "(", ")")].split(",")]
+                if "neighbor_count" not in cargs:
+                    prov = None
+        line = src.count("\n", 0, m.start()) + 1
+        if guard and prov:
+            sites.append((e, "%s [%s]" % (guard, prov)))
+        else:
+            unguarded.append("neighbor_unchecked(%s, %s) near stripped line %d: guard=%s provenance=%s" % (args[0], e, line, guard, prov))
+    return sites, unguarded
+
+
+def lint_pointer_add(src):
+    """raw pointer arithmetic: `p.add(n)` is undefined unless p + n stays inside (or one past) p's allocation, whether or not the
+    result is dereferenced.  Recognised as bounded: `self.data.as_ptr().add(start)` inside PackedLevel0::vector_at_unchecked
+    and ::record_ptr (bounds theorems over the extracted `start`).  Every other `.add(` is listed as unbounded
+    (`wrapping_add` carries no such requirement and is not listed)."""
+    bounded, unbounded = [], []
+    for m in re.finditer(r"\.add\(", src):
+        line = src.count("\n", 0, m.start()) + 1
+        recv = re.search(r"([\w.()]+)$", src[max(0, m.start() - 60):m.start()])
+        recv = recv.group(1) if recv else "?"
+        fstart = max(src.rfind("\n    fn ", 0, m.start()), src.rfind("\n    unsafe fn ", 0, m.start()))
+        fname = re.search(r"fn\s+(\w+)", src[fstart:m.start()])
+        fname = fname.group(1) if fname else "?"
+        arg = src[m.end():match_close(src, m.end() - 1, "(", ")")].strip()
+        if recv.endswith("self.data.as_ptr()") and arg == "start" and fname in ("vector_at_unchecked", "record_ptr"):
+            bounded.append("%s: data.as_ptr().add(start)" % fname)
+        else:
+            unbounded.append("%s: %s.add(%s)" % (fname, recv, re.sub(r"\s+", " ", arg)))
+    return bounded, unbounded
+
+
 def main():
     raw = open(SRC).read()
     # cut the test module
@@ -218,6 +284,16 @@ def main():
     if not re.search(r"get_unchecked_mut\(word\)", mu if isinstance(mu, str) else ""):
         problems.append("mark_if_unvisited_unchecked: access is not visited_bits[word]")
     guarded, relied = lint_unchecked(src, problems)
+    try:
+        idx_sites, idx_unguarded = lint_neighbor_index(src)
+    except Exception as e:          # noqa
+        problems.append("neighbor index lint: %s" % e)
+        idx_sites, idx_unguarded = [], []
+    padd_bounded, padd_unbounded = lint_pointer_add(src)
+    rp_body = attempt("record_ptr", lambda: fn_body(src, "PackedLevel0", "record_ptr"))
+    rp_start = attempt("record_ptr start", lambda: tr(let_of(rp_body, "start"), selfren))
+    if not idx_sites and not idx_unguarded:
+        problems.append("neighbor index lint: no neighbor_unchecked call site found")
 
     L = ["/-", "GENERATED by translators/xlate_packed.py from /repo/engine/src/ann_backend.rs — do not edit.",
          "`saturating_*` is translated as the exact operation (overflow of usize is not modelled);",
@@ -243,6 +319,16 @@ def main():
          "def callerArgumentSites : List String := [%s]" % ", ".join('"%s"' % g for g in relied),
          "/-- unchecked accesses that use a neighbour id read from a record without first comparing it with `node_count` -/",
          "def unguardedNeighbourSites : List String := [%s]" % ", ".join('"%s"' % g for g in relied if re.search(r"\((nbr|neighbor|next\d*)\)$", g)),
+         "/-- (index expression, dominating bound) of every `neighbor_unchecked(d, E)` call: E < the record's own count -/",
+         "def neighbourIndexSites : List (String × String) := [%s]" % ", ".join('("%s", "%s")' % x for x in idx_sites),
+         "/-- `neighbor_unchecked` calls whose index is not bounded by the record's count -/",
+         "def unguardedIndexSites : List String := [%s]" % ", ".join('"%s"' % g.replace('"', "'") for g in idx_unguarded),
+         "/-- first word of the record `record_ptr` points at -/",
+         "def recordPtrStart (rw dense : Nat) : Nat := %s" % rp_start,
+         "/-- raw-pointer `.add(` sites with a bounds theorem -/",
+         "def boundedPointerAddSites : List String := [%s]" % ", ".join('"%s"' % g for g in padd_bounded),
+         "/-- raw-pointer `.add(` sites without one (in-bounds pointer arithmetic is required even when nothing is dereferenced) -/",
+         "def unboundedPointerAddSites : List String := [%s]" % ", ".join('"%s"' % g.replace('"', "'") for g in padd_unbounded),
          "def translatorProblems : List String := [%s]" % ", ".join('"%s"' % p.replace('"', "'") for p in problems),
          "", "end KyroModel.Packed", ""]
     text = "\n".join(L)
@@ -250,7 +336,7 @@ def main():
     old = open(OUT).read() if os.path.exists(OUT) else None
     if old != text:
         open(OUT, "w").write(text)
-    print("packed: guarded=%d caller-argument=%d problems=%d" % (len(guarded), len(relied), len(problems)))
+    print("packed: guarded=%d caller-argument=%d index-sites=%d index-unguarded=%d ptr-add=%d/%d problems=%d" % (len(guarded), len(relied), len(idx_sites), len(idx_unguarded), len(padd_bounded), len(padd_bounded) + len(padd_unbounded), len(problems)))
     for p in problems:
         print("PROBLEM:", p)
 
